@@ -313,17 +313,20 @@ func runReplyTab(c *core.Ctx) {
 	// cache: Accepted follows Add's verdict; refusal carries the duplicate prefix
 	cache := specs[0].fn
 	if cache != nil {
+		// (in the clause, or in a private helper the clause hands the event to)
 		var addCall *ssa.Call
-		an.Instrs(cache, func(in ssa.Instruction) {
-			if call, ok := in.(*ssa.Call); ok && strings.HasSuffix(an.CalleeName(&call.Call), "EventCache).Add") {
-				addCall = call
+		var addOcc an.Occ
+		an.Region(cache, nil, func(o an.Occ) {
+			if call, ok := o.In.(*ssa.Call); ok && strings.HasSuffix(an.CalleeName(&call.Call), "EventCache).Add") {
+				addCall, addOcc = call, o
 			}
 		})
 		okT, okF := false, false
 		msgPath := "p:" + cache.Params[2].Name()
-		if addCall != nil && an.PathOf(addCall.Call.Args[1]) == msgPath+".Event" {
-			for _, call := range callsNamed(cache, core.ModulePath+".NewServerOKMsg") {
-				for _, g := range an.Guards(cache, call.Block()) {
+		if addCall != nil && addOcc.Path(addCall.Call.Args[1]) == msgPath+".Event" {
+			host := addCall.Parent()
+			for _, call := range callsNamed(host, core.ModulePath+".NewServerOKMsg") {
+				for _, g := range an.Guards(host, call.Block()) {
 					if g.V != ssa.Value(addCall) {
 						continue
 					}
@@ -539,8 +542,9 @@ func runDumpAll(c *core.Ctx) {
 	// Dump: Find([]*ReqFilter{{}}) and the result is what gets marshalled and written
 	good := false
 	detail := "Dump does not query the cache"
-	an.Instrs(dump, func(in ssa.Instruction) {
-		call, ok := in.(*ssa.Call)
+	// (the query may sit in Dump or in a private helper it calls)
+	an.Region(dump, nil, func(o an.Occ) {
+		call, ok := o.In.(*ssa.Call)
 		if !ok || !strings.HasSuffix(an.CalleeName(&call.Call), "EventCache).Find") {
 			return
 		}
@@ -556,7 +560,7 @@ func runDumpAll(c *core.Ctx) {
 		}
 		// marshalled and written
 		for _, m := range callsNamed(dump, "encoding/json.Marshal") {
-			if an.PathOf(m.Call.Args[0]) == an.PathOf(call) {
+			if mp := an.PathOf(m.Call.Args[0]); mp == o.Path(call) || (len(o.Chain) > 0 && an.Unwrap(m.Call.Args[0]) == ssa.Value(o.Chain[0]) && helperReturns(o.Chain[0], call)) {
 				good = true
 			}
 		}
@@ -578,4 +582,19 @@ func runDumpAll(c *core.Ctx) {
 		}
 	}
 	c.Check(okAdd && len(methods) == 1, nil, fname(c, restore), "insert-path", P.Pos(restore.Pos()), "Restore inserts every decoded event through EventCache.Add and nothing else", fmt.Sprintf("Restore touches the cache through %v, want exactly one looped Add of each decoded event", methods))
+}
+
+// helperReturns: every return of the helper called at site hands back the value of inner.
+func helperReturns(site *ssa.Call, inner *ssa.Call) bool {
+	h := an.StaticCallee(&site.Call)
+	if h == nil || inner.Parent() != h {
+		return false
+	}
+	for _, rb := range an.ReturnBlocks(h) {
+		rv := an.ReturnValues(an.LastInstr(rb).(*ssa.Return))
+		if len(rv) != 1 || an.Unwrap(rv[0]) != ssa.Value(inner) {
+			return false
+		}
+	}
+	return true
 }
